@@ -155,6 +155,16 @@ def finish (cfg : Cfg) (a : Acc) (sm : Summary) : Acc :=
     let a3 := if owed ∧ a.epollAdds ≥ 1 ∧ a.epollDels ≠ 1 then a3.fail "C05 connection closed but its poller registration was not released exactly once" else a3
     let a4 := if sm.closing = 0 ∧ sm.unread > 0 ∧ hasOR ∧ a.hActive = 0 ∧ !(cfg.hasOC ∧ a.ocEnds = 0)
               then a3.fail s!"C06 {sm.unread} bytes buffered at quiescence with a handler set, nobody processing" else a3
+    -- the same obligation after a PEER close ("a connection ... that the user has not closed"; "when the peer closes,
+    -- buffered input is still offered to the handler"): the hang-up closed the connection (`closing = poller`), no user
+    -- Close/Detach happened, a handler is set and no invocation is in progress or will ever start (quiescent: the
+    -- operator is detached, no further network event can come) - e.g. a client whose peer sent and closed before
+    -- SetOnRequest: the SetOnRequest kick is the only thing that can still offer the bytes.  Exempt as in the close
+    -- callback clause above: a panicking callback (it was offered the input and broke its contract), D7 (OnConnect set
+    -- and not finished).
+    let a4 := if sm.closing = 2 ∧ !a.userClosed ∧ a.hupWon ∧ sm.unread > 0 ∧ hasOR ∧ a.hActive = 0
+                 ∧ a.hPanics + a.ocPanics = 0 ∧ !(cfg.hasOC ∧ a.ocEnds = 0)
+              then a4.fail s!"C06 {sm.unread} bytes buffered at quiescence on a connection closed by the peer (not by the user) with a handler set, never offered to OnRequest" else a4
     let a5 := if a.hupWon ∧ cfg.hasOD ∧ (!cfg.hasOC ∨ a.ocEnds > 0) ∧ a.odRuns ≠ 1
               then a4.fail "C09 peer closed after OnConnect finished (or none set) but OnDisconnect did not run exactly once" else a4
     a5
